@@ -129,71 +129,79 @@ def impl_query(zdir: Path, text: str):
             return {"err": f"{type(e).__name__}: {str(e)[:200]}"}
 
 
-def body(ctx: C.Ctx, proof: C.ProofStatus) -> C.Result:
-    res = C.Result()
-    rng = ctx.rng
-    n_idx = ctx.scale(25, 600)
-    n_q = 40
-    cfg = Z.write_config(ctx.tmp / "cfg.yml")
-    zdir = ctx.tmp / "z"
+DRIVER_OK = True
+N_Q = 40
+RET = None
+
+
+def one_index(ctx, res, rng, i):
     from freezegun import freeze_time
 
-    for i in range(n_idx):
-        if zdir.exists():
-            shutil.rmtree(zdir)
-        zdir.mkdir(parents=True)
-        files = G.gen_dir(rng, npages=(2, 5))
-        G.write_dir(zdir, files)
-        Z.clear_engine_cache()
-        with freeze_time(dt.datetime(*TODAY, 12, 0)):
-            rc, out, err = Z.zorg_main(zdir, "db", "create", config=cfg)
-        if rc != 0:
-            res.notes.append(f"db create failed rc={rc} on a generated directory (C05/C08 territory): {err[-200:]}")
+    cfg = Z.write_config(ctx.tmp / "cfg.yml")
+    zdir = ctx.tmp / "z"
+    n_q = N_Q
+    if zdir.exists():
+        shutil.rmtree(zdir)
+    zdir.mkdir(parents=True)
+    files = G.gen_dir(rng, npages=(2, 5))
+    G.write_dir(zdir, files)
+    Z.clear_engine_cache()
+    with freeze_time(dt.datetime(*TODAY, 12, 0)):
+        rc, out, err = Z.zorg_main(zdir, "db", "create", config=cfg)
+    if rc != 0:
+        res.notes.append(f"db create failed rc={rc} on a generated directory (C05/C08 territory): {err[-200:]}")
+        return RET
+    rows = G.dump_index(zdir)
+    if not rows:
+        return RET
+    universe = sorted(r["zid"] for r in rows)
+    queries = ["W " + gen_or(rng, rows, 0) for _ in range(n_q)]
+    mres = None
+    if DRIVER_OK:
+        mres = C.model_batch([{"op": "filter.eval", "index": rows, "today": list(TODAY), "queries": queries}])[0]
+    for qi, q in enumerate(queries):
+        got = impl_query(zdir, q)
+        res.evaluations += 1
+        m = mres[qi] if mres else None
+        if m is None or "err" in m:
+            res.unsupported += 1
+            res.count("model_rejects_query")
             continue
-        rows = G.dump_index(zdir)
-        if not rows:
+        open_z = {z for z, s, sq in m["rows"] if s is None or sq is None}
+        sat = {z for z, s, sq in m["rows"] if s is True} - open_z
+        sql = {z for z, s, sq in m["rows"] if sq is True} - open_z
+        if "err" in got:
+            res.failures.append(C.Failure(f"query {q!r} raised {got['err']}", {"files": files, "query": q}))
             continue
-        universe = sorted(r["zid"] for r in rows)
-        queries = ["W " + gen_or(rng, rows, 0) for _ in range(n_q)]
-        mres = None
-        if proof.driver_ok:
-            mres = C.model_batch([{"op": "filter.eval", "index": rows, "today": list(TODAY), "queries": queries}])[0]
-        for qi, q in enumerate(queries):
-            got = impl_query(zdir, q)
-            res.evaluations += 1
-            m = mres[qi] if mres else None
-            if m is None or "err" in m:
-                res.unsupported += 1
-                res.count("model_rejects_query")
-                continue
-            open_z = {z for z, s, sq in m["rows"] if s is None or sq is None}
-            sat = {z for z, s, sq in m["rows"] if s is True} - open_z
-            sql = {z for z, s, sq in m["rows"] if sq is True} - open_z
-            if "err" in got:
-                res.failures.append(C.Failure(f"query {q!r} raised {got['err']}", {"files": files, "query": q}))
-                continue
-            impl = set(got["zids"]) - open_z
-            k = len(impl)
-            res.count("result_empty" if k == 0 else ("result_all" if k == len(universe) - len(open_z) else "result_proper_subset"))
-            if open_z:
-                res.count("notes_open_for_query", len(open_z))
-            if 0 < k < len(universe):
-                res.nontrivial.add((i, q))
-            if len(res.samples) < 4 and 0 < k < len(universe) and "(" in q:
-                res.sample({"query": q, "n_notes": len(universe), "returned": sorted(impl)[:5]})
-            if impl != sat:
-                extra, missing = sorted(impl - sat), sorted(sat - impl)
-                res.failures.append(
-                    C.Failure(
-                        f"query {q!r}: returned-but-not-satisfying {extra[:3]}, satisfying-but-not-returned {missing[:3]}",
-                        {"files": files, "query": q, "extra": extra, "missing": missing,
-                         "rows": [r for r in rows if r["zid"] in (extra + missing)[:3]]},
-                    )
+        impl = set(got["zids"]) - open_z
+        k = len(impl)
+        res.count("result_empty" if k == 0 else ("result_all" if k == len(universe) - len(open_z) else "result_proper_subset"))
+        if open_z:
+            res.count("notes_open_for_query", len(open_z))
+        if 0 < k < len(universe):
+            res.nontrivial.add((i, q))
+        if len(res.samples) < 4 and 0 < k < len(universe) and "(" in q:
+            res.sample({"query": q, "n_notes": len(universe), "returned": sorted(impl)[:5]})
+        if impl != sat:
+            extra, missing = sorted(impl - sat), sorted(sat - impl)
+            res.failures.append(
+                C.Failure(
+                    f"query {q!r}: returned-but-not-satisfying {extra[:3]}, satisfying-but-not-returned {missing[:3]}",
+                    {"files": files, "query": q, "extra": extra, "missing": missing,
+                     "rows": [r for r in rows if r["zid"] in (extra + missing)[:3]]},
                 )
-            if impl != sql:
-                res.disagreements.append(
-                    C.Failure(f"query {q!r}: SQL model {sorted(sql)[:6]} != implementation {sorted(impl)[:6]}", {"files": files, "query": q}, "correspondence")
-                )
+            )
+        if impl != sql:
+            res.disagreements.append(
+                C.Failure(f"query {q!r}: SQL model {sorted(sql)[:6]} != implementation {sorted(impl)[:6]}", {"files": files, "query": q}, "correspondence")
+            )
+    return RET
+
+
+def body(ctx: C.Ctx, proof: C.ProofStatus) -> C.Result:
+    global DRIVER_OK
+    DRIVER_OK = proof.driver_ok
+    res, _ = C.parallel_jobs(ctx, ctx.scale(48, 600), one_index)
     return res
 
 
